@@ -176,7 +176,7 @@ func (m *Model) RunLayout(s *Sink, rule string) {
 			if ret, isRet := b.Instrs[len(b.Instrs)-1].(*ssa.Return); isRet {
 				if k, isK := ret.Results[0].(*ssa.Const); isK && k.Value != nil && k.Value.String() == "true" {
 					for _, in := range b.Instrs {
-						if c, isC := in.(*ssa.Call); isC && c.Call.StaticCallee() != nil && c.Call.StaticCallee().Name() == "newError" {
+						if c, isC := in.(*ssa.Call); isC && c.Call.StaticCallee() != nil && canonFnName(c.Call.StaticCallee()) == "newError" {
 							okErr = true
 						}
 					}
@@ -272,7 +272,7 @@ func (m *Model) RunLayout(s *Sink, rule string) {
 				continue
 			}
 			c, isC := stripIface(ret.Results[0]).(*ssa.Call)
-			if !isC || c.Call.StaticCallee() == nil || c.Call.StaticCallee().Name() != "newError" {
+			if !isC || c.Call.StaticCallee() == nil || canonFnName(c.Call.StaticCallee()) != "newError" {
 				continue
 			}
 			msg, _ := constOfValue(c.Call.Args[2])
@@ -284,7 +284,7 @@ func (m *Model) RunLayout(s *Sink, rule string) {
 			isLayout = ok2
 			hasUse = allPathsEstablish(b, func(f Fact) bool {
 				cc, okc := f.Cond.(*ssa.Call)
-				return okc && f.Holds && cc.Call.StaticCallee() != nil && cc.Call.StaticCallee().Name() == "HasUseStmt"
+				return okc && f.Holds && cc.Call.StaticCallee() != nil && canonFnName(cc.Call.StaticCallee()) == "HasUseStmt"
 			}, 0)
 			ok = isLayout && hasUse
 		}
@@ -306,7 +306,7 @@ func (m *Model) RunLayout(s *Sink, rule string) {
 		for _, b := range er.Blocks {
 			if ret, isRet := b.Instrs[len(b.Instrs)-1].(*ssa.Return); isRet {
 				if ld, isLd := stripIface(ret.Results[0]).(*ssa.UnOp); isLd {
-					if g, isG := ld.X.(*ssa.Global); isG && g.Name() == "NIL" {
+					if g, isG := ld.X.(*ssa.Global); isG && canonGlobalName(g) == "NIL" {
 						for _, f := range expandFacts(factsAt(b)) {
 							if bo, isBo := f.Cond.(*ssa.BinOp); isBo && strings.HasSuffix(fieldPathOf(bo.X), ".Insert") && isNilConst(bo.Y) && (bo.Op == token.EQL) == f.Holds {
 								okNil = true
